@@ -445,6 +445,8 @@ def hamiltonian_from_ints(ints):
     """the fermionic Hamiltonian of the corpus entry `ints`: through SecondQuantizedMolecule for real 8-fold symmetric
     integrals; for rotated (complex, 4-fold symmetric) tensors directly through the code's FermionOperator class in the
     same term format (a+_p a+_q a_r a_s, coefficient g/2), because openfermion's spinorb_from_spatial is real-only."""
+    if "fjson" in ints:
+        return fop_from_json(ints["fjson"])          # an operator AS WRITTEN (word order inside every term is kept)
     if not ints.get("rot"):
         return synth_hamiltonian(ints["nmo"], ints["c0"], ints["h"], ints["g"])
     n = ints["nmo"]
@@ -462,6 +464,57 @@ def hamiltonian_from_ints(ints):
                             if g2[p][q][r][t] != 0:
                                 items.append((g2[p][q][r][t] / 2, ((2 * p + s1, 1), (2 * q + s2, 1), (2 * r + s2, 0), (2 * t + s1, 0))))
     return fsum(items)
+
+
+def respell(op, rng, mode):
+    """the same element of the CAR algebra, spelled differently: adjacent factors x y of a word are rewritten as
+    -y x + {x, y} ({a_p, a+_p} = 1, every other anticommutator 0).  mode "hole": every one-body word a+_p a_q becomes
+    delta_pq - a_q a+_p (hole picture); mode "swaps": one seeded adjacent swap in about every second word.  The result is
+    NOT normal ordered and carries constants / shorter words that only re-ordering brings back."""
+    items = []
+    for t, c in op.terms.items():
+        if len(t) >= 2 and (mode == "hole" and len(t) == 2 or mode == "swaps" and rng.random() < 0.6):
+            i = 0 if len(t) == 2 else rng.randrange(len(t) - 1)
+            x, y = t[i], t[i + 1]
+            items.append((-c, t[:i] + (y, x) + t[i + 2:]))
+            if x[0] == y[0] and x[1] != y[1]:
+                items.append((c, t[:i] + t[i + 2:]))
+        else:
+            items.append((c, t))
+    return fsum(items)
+
+
+def written_operators(rng, nmo):
+    """Hermitian, number- and spin-conserving operators written WITHOUT normal ordering (annihilators left of creators,
+    products of operators), with and without an explicit constant: (label, FermionOperator)."""
+    so = [(i, s) for i in range(nmo) for s in (0, 1)]
+    m = lambda i, s: 2 * i + s     # noqa: E731
+    out = []
+    t = [[0] * nmo for _ in range(nmo)]
+    for i in range(nmo):
+        for j in range(i, nmo):
+            t[i][j] = t[j][i] = rng.randint(-2, 2) or 1
+    # hole-picture hopping  sum t_pq a_p a+_q
+    hop = [(t[i][j], ((m(i, s), 0), (m(j, s), 1))) for i in range(nmo) for j in range(nmo) for s in (0, 1)]
+    out.append(("hole-hopping", fsum(hop)))
+    out.append(("hole-hopping+constant", fsum(hop + [(rng.choice([-3, 2, 5]), ())])))
+    # sum c_p (1 - n_p) written as a_p a+_p, and as c_p - c_p a+_p a_p   (spin-free: one coefficient per spatial orbital)
+    cs = [rng.randint(1, 3) for _ in range(nmo)]
+    out.append(("holes-as-a.adag", fsum([(cs[i], ((m(i, s), 0), (m(i, s), 1))) for (i, s) in so])))
+    out.append(("holes-as-1-n", fsum([(2 * sum(cs), ())] + [(-cs[i], ((m(i, s), 1), (m(i, s), 0))) for (i, s) in so])))
+    # sum w_ij n_p (1 - n_q) as a+_p a_p a_q a+_q, w symmetric in the spatial indices
+    w = [[0] * nmo for _ in range(nmo)]
+    for i in range(nmo):
+        for j in range(i, nmo):
+            w[i][j] = w[j][i] = rng.randint(1, 2)
+    out.append(("n(1-n)", fsum([(w[i][j], ((m(i, s), 1), (m(i, s), 0), (m(j, u), 0), (m(j, u), 1)))
+                                for (i, s) in so for (j, u) in so if (i, s) != (j, u)])))
+    # a product of two FermionOperators that is not normal ordered: the square of a Hermitian one-body operator
+    one = fsum([(t[i][j], ((m(i, s), 1), (m(j, s), 0))) for i in range(nmo) for j in range(nmo) for s in (0, 1)])
+    out.append(("one-body-squared", copy.deepcopy(one) * copy.deepcopy(one)))
+    hh = fsum(hop)
+    out.append(("hole-hopping-squared+constant", copy.deepcopy(hh) * copy.deepcopy(hh) + FO((), -2.0)))
+    return out
 
 
 HCB_STEPS = ("second-encoding", "after-iadd", "after-imul", "after-isub")
@@ -499,6 +552,7 @@ def compression_config(B, rng, quick):
     plan = [(2, 12 if quick else 40), (3, 3 if quick else 12)]
     prev_ints = None
     for nmo, count in plan:
+        entries = []
         for x in range(count):
             c0, h, g = rand_integrals(rng, nmo)
             # every third entry (every second for 2 orbitals) is rotated to complex, only 4-fold symmetric integrals
@@ -508,6 +562,19 @@ def compression_config(B, rng, quick):
             elif nmo == 3 and x % 3 != 0:
                 rot = "sqrt-swap" if x % 3 == 1 else "phase"
             ints = {"nmo": nmo, "c0": c0, "h": h, "g": g, "rot": rot}
+            entries.append(ints)
+            # the same Hamiltonian AS WRITTEN differently (not normal ordered): hole picture / seeded adjacent swaps
+            if x % (2 if nmo == 2 else 3) == 0 or not quick:
+                for mode in (("hole", "swaps") if (x % 4 == 0 or not quick) else ("hole",)):
+                    Hs = respell(hamiltonian_from_ints(ints), rng, mode)
+                    entries.append({"nmo": nmo, "fjson": fop_json(Hs), "spelling": "%s of a molecular Hamiltonian%s" % (mode, " (complex)" if rot else "")})
+        # operators that are not molecular Hamiltonians, written without normal ordering
+        wr = written_operators(rng, nmo)
+        if quick and nmo == 3:
+            wr = rng.sample(wr, 3)
+        for label, op in wr:
+            entries.append({"nmo": nmo, "fjson": fop_json(op), "spelling": label})
+        for ints in entries:
             H = hamiltonian_from_ints(ints)
             fj = fop_json(H)
             # --- HCB
@@ -517,15 +584,16 @@ def compression_config(B, rng, quick):
 
             def hcb():
                 return qubit_op_to_json(fermion_to_qubit_mapping(copy.deepcopy(H), "HCB"), nmo, M)
-            img = guarded(chk, cfg, {"class": "hcb", "ints": ints}, hcb)
+            aw = "-as-written" if "fjson" in ints else ""
+            img = guarded(chk, cfg, {"class": "hcb" + aw, "ints": ints}, hcb)
             if img is not None:
-                B.rec(recs, cfg, "hcb", {"class": "hcb", "ints": ints}, f=fj, img=img, nmo=nmo)
+                B.rec(recs, cfg, "hcb", {"class": "hcb" + aw, "ints": ints}, f=fj, img=img, nmo=nmo)
             cc = complex_content(ints)
             B.complex_pair_hopping = getattr(B, "complex_pair_hopping", 0) + int(cc[0])
             B.complex_one_body = getattr(B, "complex_one_body", 0) + int(cc[1])
             # operators are objects (with caches): the SAME object encoded again, then changed by in-place arithmetic
             # and encoded again - every image must belong to the operator the object holds at that moment
-            if prev_ints is not None and prev_ints["nmo"] == nmo:
+            if prev_ints is not None and prev_ints["nmo"] == nmo and "fjson" not in ints and "fjson" not in prev_ints:
                 for step, img2, fj2 in hcb_history(chk, cfg, ints, prev_ints):
                     B.rec(recs, cfg, "hcb", {"class": "hcb-history", "ints": ints, "other": prev_ints, "step": step}, f=fj2, img=img2, nmo=nmo)
             prev_ints = ints
@@ -545,7 +613,7 @@ def compression_config(B, rng, quick):
                 for ne_arg in args:
                     def comb():
                         return qubit_op_to_json(combinatorial(copy.deepcopy(H), nmo, ne_arg), nq, M)
-                    how = {"class": "comb", "ints": ints, "n_electrons": ne_arg}
+                    how = {"class": "comb" + aw, "ints": ints, "n_electrons": ne_arg}
                     img = guarded(chk, cfg, how, comb)
                     if img is not None:
                         B.rec(recs, cfg, "comb", how, f=fj, img=img, nmo=nmo, na=na, nb=nb, nq=nq)
@@ -683,7 +751,8 @@ def run(chk):
         if v == "off-carrier":
             chk.inconclusive += 1
             continue
-        key = "%s:utd=%s:%s:%s" % (m["cfg"]["enc"], m["cfg"]["utd"], m["kind"], v)
+        sub = m["how"].get("class", m["kind"]) if isinstance(m["how"], dict) and str(m["how"].get("class", "")).endswith("-as-written") else m["kind"]
+        key = "%s:utd=%s:%s:%s" % (m["cfg"]["enc"], m["cfg"]["utd"], sub, v)
         bad_by[key] = bad_by.get(key, 0) + 1
         per_key[key] = per_key.get(key, 0) + 1
         if (per_key[key] > 2 or len(chk.violations) >= 48) and chk.match_known(key) is None:
